@@ -1,6 +1,694 @@
 package main
 
-import "verif/ev"
+// C03 — generated decoder programs: a PRNG-built program in a small combinator language that maps 1:1 onto
+// the public decode API is executed twice: interpreter A drives the REAL API inside decode.Decode,
+// interpreter B is a reference that computes the expected tree (names, kinds, exact ranges = the bits
+// each field read, buffer identity, child order after the documented start-position sort, indices, the
+// partial tree of a failing program). The two trees must be equal. Gap fields are ignored here (their
+// content and coverage are C04's subject); for a gap-filled scope the compound range must be its window.
 
-// placeholder until the generated-decoder engine is written
-func c03Gendec(run *ev.Run) {}
+import (
+	"context"
+	"fmt"
+	"sort"
+	"strings"
+
+	"github.com/wader/fq/pkg/bitio"
+	"github.com/wader/fq/pkg/decode"
+	"github.com/wader/fq/pkg/scalar"
+
+	"verif/ev"
+	"verif/gen"
+)
+
+type gNode struct {
+	Op   string // U S Raw Struct Array SeekAbs SeekRel SeekAbsFn Framed Limited Range FormatLen FormatRange FormatBitBuf RootBitBuf ValueUint Fatal
+	Name string
+	N    int64 // bits (leaf, window) / bytes (derived buffer)
+	Pos  int64 // seek target / first bit / delta
+	Arr  bool  // sub-format root is an array
+	Xor  byte
+	Body []*gNode
+}
+
+func (n *gNode) String() string {
+	var sb strings.Builder
+	switch n.Op {
+	case "U", "S", "Raw":
+		fmt.Fprintf(&sb, "%s(%s,%d)", n.Op, n.Name, n.N)
+	case "Struct", "Array":
+		fmt.Fprintf(&sb, "%s(%s){%s}", n.Op, n.Name, gBody(n.Body))
+	case "SeekAbs", "SeekRel":
+		fmt.Fprintf(&sb, "%s(%d)", n.Op, n.Pos)
+	case "SeekAbsFn":
+		fmt.Fprintf(&sb, "SeekAbsFn(%d){%s}", n.Pos, gBody(n.Body))
+	case "Framed", "Limited":
+		fmt.Fprintf(&sb, "%s(%d){%s}", n.Op, n.N, gBody(n.Body))
+	case "Range":
+		fmt.Fprintf(&sb, "Range(%d,%d){%s}", n.Pos, n.N, gBody(n.Body))
+	case "FormatLen":
+		fmt.Fprintf(&sb, "FormatLen(%s,%d,arr=%v){%s}", n.Name, n.N, n.Arr, gBody(n.Body))
+	case "FormatRange":
+		fmt.Fprintf(&sb, "FormatRange(%s,%d,%d,arr=%v){%s}", n.Name, n.Pos, n.N, n.Arr, gBody(n.Body))
+	case "FormatBitBuf":
+		fmt.Fprintf(&sb, "FormatBitBuf(%s,%dB^%02x,arr=%v){%s}", n.Name, n.N, n.Xor, n.Arr, gBody(n.Body))
+	case "RootBitBuf":
+		fmt.Fprintf(&sb, "RootBitBuf(%s,%dB^%02x)", n.Name, n.N, n.Xor)
+	case "ValueUint":
+		fmt.Fprintf(&sb, "ValueUint(%s)", n.Name)
+	case "Fatal":
+		sb.WriteString("Fatal")
+	}
+	return sb.String()
+}
+
+func gBody(b []*gNode) string {
+	var ss []string
+	for _, n := range b {
+		ss = append(ss, n.String())
+	}
+	return strings.Join(ss, " ")
+}
+
+// ---- expected tree ----
+
+type eVal struct {
+	Name     string
+	Kind     string // struct array uint sint raw synthetic
+	Start    int64
+	Len      int64
+	IsRoot   bool
+	GapScope bool  // produced by decode() with gap filling: range must be the window
+	Win      int64 // window length of a gap scope
+	Uval     uint64
+	Sval     int64
+	Children []*eVal
+}
+
+type gFail struct{}
+
+// reference interpreter
+type gRef struct {
+	buf   bstr
+	pos   int64
+	limit int64
+	cur   *eVal
+	ops   map[string]int
+}
+
+func (r *gRef) add(v *eVal) { r.cur.Children = append(r.cur.Children, v) }
+
+func (r *gRef) run(body []*gNode) {
+	for _, n := range body {
+		r.exec(n)
+	}
+}
+
+func (r *gRef) exec(n *gNode) {
+	r.ops[n.Op]++
+	switch n.Op {
+	case "U", "S", "Raw":
+		if r.pos+n.N > r.limit {
+			panic(gFail{})
+		}
+		if r.cur.Kind == "struct" {
+			for _, c := range r.cur.Children {
+				if c.Name == n.Name {
+					panic(gFail{}) // "already exist in struct": stops the decode, forced or not
+				}
+			}
+		}
+		v := &eVal{Name: n.Name, Start: r.pos, Len: n.N}
+		u := c02U(r.buf, r.pos, n.N)
+		switch n.Op {
+		case "U":
+			v.Kind, v.Uval = "uint", u.Uint64()
+		case "S":
+			v.Kind, v.Sval = "sint", c02Signed(u, n.N).Int64()
+		default:
+			v.Kind = "raw"
+		}
+		r.add(v)
+		r.pos += n.N
+	case "Struct", "Array":
+		c := &eVal{Name: n.Name, Kind: strings.ToLower(n.Op), Start: r.pos}
+		r.add(c)
+		saved := r.cur
+		r.cur = c
+		r.run(n.Body)
+		r.cur = saved
+	case "SeekAbs":
+		if n.Pos < 0 || n.Pos > r.limit {
+			panic(gFail{})
+		}
+		r.pos = n.Pos
+	case "SeekRel":
+		if r.pos+n.Pos < 0 || r.pos+n.Pos > r.limit {
+			panic(gFail{})
+		}
+		r.pos += n.Pos
+	case "SeekAbsFn":
+		if n.Pos < 0 || n.Pos > r.limit {
+			panic(gFail{})
+		}
+		old := r.pos
+		r.pos = n.Pos
+		r.run(n.Body)
+		r.pos = old
+	case "Framed", "Limited", "Range":
+		first := r.pos
+		if n.Op == "Range" {
+			first = n.Pos
+		}
+		if first < 0 || first+n.N > r.limit {
+			panic(gFail{})
+		}
+		oldPos, oldLimit := r.pos, r.limit
+		r.pos, r.limit = first, first+n.N
+		r.run(n.Body)
+		end := r.pos
+		r.limit = oldLimit
+		switch n.Op {
+		case "Framed":
+			r.pos = oldPos + n.N
+		case "Limited":
+			r.pos = end
+		default:
+			r.pos = oldPos
+		}
+	case "FormatLen", "FormatRange":
+		first := r.pos
+		if n.Op == "FormatRange" {
+			first = n.Pos
+		}
+		if first < 0 || first+n.N > r.limit {
+			panic(gFail{})
+		}
+		kind := "struct"
+		if n.Arr {
+			kind = "array"
+		}
+		sub := &eVal{Name: n.Name, Kind: kind, Start: first, GapScope: true, Win: n.N}
+		sr := &gRef{buf: r.buf.slice(first, n.N), limit: n.N, cur: sub, ops: r.ops}
+		ok := sr.try(n.Body)
+		if !ok {
+			panic(gFail{}) // a failed sub-decode is not added and fails the parent
+		}
+		gShift(sub, first)
+		sub.Start = first
+		r.add(sub)
+		if n.Op == "FormatLen" {
+			r.pos += n.N
+		}
+	case "FormatBitBuf", "RootBitBuf":
+		if r.pos%8 != 0 && false {
+			panic(gFail{})
+		}
+		nb := n.N * 8
+		if r.pos+nb > r.limit {
+			panic(gFail{})
+		}
+		src := r.buf.slice(r.pos, nb)
+		der := make([]byte, n.N)
+		for i := range der {
+			der[i] = src.bytesPadded()[i] ^ n.Xor
+		}
+		if n.Op == "RootBitBuf" {
+			r.add(&eVal{Name: n.Name, Kind: "raw", Start: r.pos, Len: nb, IsRoot: true})
+			return
+		}
+		kind := "struct"
+		if n.Arr {
+			kind = "array"
+		}
+		sub := &eVal{Name: n.Name, Kind: kind, Start: r.pos, IsRoot: true, GapScope: true, Win: nb}
+		sr := &gRef{buf: bstrFromBytes(der, -1), limit: nb, cur: sub, ops: r.ops}
+		if !sr.try(n.Body) {
+			panic(gFail{})
+		}
+		r.add(sub)
+	case "ValueUint":
+		r.add(&eVal{Name: n.Name, Kind: "synthetic", Start: r.pos, Len: 0, Uval: 42})
+	case "Fatal":
+		panic(gFail{})
+	}
+}
+
+// try runs body; false if it failed
+func (r *gRef) try(body []*gNode) (ok bool) {
+	defer func() {
+		if x := recover(); x != nil {
+			if _, is := x.(gFail); !is {
+				panic(x)
+			}
+			ok = false
+		}
+	}()
+	r.run(body)
+	return true
+}
+
+func gShift(v *eVal, d int64) {
+	for _, c := range v.Children {
+		if c.IsRoot {
+			c.Start += d // position in the parent buffer
+			continue
+		}
+		c.Start += d
+		gShift(c, d)
+	}
+}
+
+// gFinish: compound ranges (post-order), struct sort, as decode.go documents
+func gFinish(v *eVal) {
+	if v.Kind != "struct" && v.Kind != "array" {
+		return
+	}
+	for _, c := range v.Children {
+		gFinish(c)
+	}
+	posAtCreation := v.Start
+	first := true
+	var lo, hi int64
+	for _, c := range v.Children {
+		if c.IsRoot || c.Kind == "synthetic" {
+			continue
+		}
+		if first {
+			lo, hi, first = c.Start, c.Start+c.Len, false
+		} else {
+			lo, hi = min(lo, c.Start), max(hi, c.Start+c.Len)
+		}
+	}
+	switch {
+	case v.GapScope && v.Win > 0:
+		// gap filling makes leaves + gaps cover the whole window
+		if v.IsRoot {
+			v.Len = v.Win // Start stays the position in the parent buffer
+		} else {
+			v.Len = v.Win
+		}
+	case first:
+		v.Start, v.Len = posAtCreation, 0
+	default:
+		if !v.IsRoot {
+			v.Start = lo
+		}
+		v.Len = hi - lo
+	}
+	if v.Kind == "struct" {
+		sort.SliceStable(v.Children, func(i, j int) bool { return v.Children[i].Start < v.Children[j].Start })
+	}
+}
+
+// ---- real interpreter ----
+
+type gReal struct {
+	seq int
+}
+
+func (g *gReal) subGroup(n *gNode) *decode.Group {
+	g.seq++
+	f := &decode.Format{Name: fmt.Sprintf("gsub%d", g.seq), RootArray: n.Arr, DecodeFn: func(d *decode.D) any {
+		g.run(d, n.Body)
+		return nil
+	}}
+	return &decode.Group{Name: f.Name, Formats: []*decode.Format{f}}
+}
+
+func (g *gReal) run(d *decode.D, body []*gNode) {
+	for _, n := range body {
+		g.exec(d, n)
+	}
+}
+
+func (g *gReal) derive(d *decode.D, n *gNode) bitio.ReaderAtSeeker {
+	bs := d.BytesRange(d.Pos(), int(n.N))
+	der := make([]byte, len(bs))
+	for i := range bs {
+		der[i] = bs[i] ^ n.Xor
+	}
+	return bitio.NewBitReader(der, -1)
+}
+
+func (g *gReal) exec(d *decode.D, n *gNode) {
+	switch n.Op {
+	case "U":
+		d.FieldU(n.Name, int(n.N))
+	case "S":
+		d.FieldS(n.Name, int(n.N))
+	case "Raw":
+		d.FieldRawLen(n.Name, n.N)
+	case "Struct":
+		d.FieldStruct(n.Name, func(d *decode.D) { g.run(d, n.Body) })
+	case "Array":
+		d.FieldArray(n.Name, func(d *decode.D) { g.run(d, n.Body) })
+	case "SeekAbs":
+		d.SeekAbs(n.Pos)
+	case "SeekRel":
+		d.SeekRel(n.Pos)
+	case "SeekAbsFn":
+		d.SeekAbs(n.Pos, func(d *decode.D) { g.run(d, n.Body) })
+	case "Framed":
+		d.FramedFn(n.N, func(d *decode.D) { g.run(d, n.Body) })
+	case "Limited":
+		d.LimitedFn(n.N, func(d *decode.D) { g.run(d, n.Body) })
+	case "Range":
+		d.RangeFn(n.Pos, n.N, func(d *decode.D) { g.run(d, n.Body) })
+	case "FormatLen":
+		d.FieldFormatLen(n.Name, n.N, g.subGroup(n), nil)
+	case "FormatRange":
+		d.FieldFormatRange(n.Name, n.Pos, n.N, g.subGroup(n), nil)
+	case "FormatBitBuf":
+		d.FieldFormatBitBuf(n.Name, g.derive(d, n), g.subGroup(n), nil)
+	case "RootBitBuf":
+		d.FieldRootBitBuf(n.Name, g.derive(d, n))
+	case "ValueUint":
+		d.FieldValueUint(n.Name, 42)
+	case "Fatal":
+		d.Fatalf("generated failure")
+	}
+}
+
+// ---- generator ----
+
+type gGen struct {
+	rng   *gen.Rand
+	names int
+	nodes int
+	max   int
+}
+
+func (g *gGen) name() string {
+	g.names++
+	return fmt.Sprintf("f%d", g.names)
+}
+
+// body generates a sequence for a window of `avail` bits starting at relative position 0 (positions are
+// tracked approximately: programs that run out of bits are wanted, they produce partial trees)
+func (g *gGen) body(depth int, avail int64, inWindowBase int64) []*gNode {
+	var out []*gNode
+	n := 1 + g.rng.Intn(5)
+	pos := inWindowBase
+	for i := 0; i < n && g.nodes < g.max; i++ {
+		g.nodes++
+		k := g.rng.Intn(20)
+		if depth <= 0 && k >= 8 && k != 18 {
+			k = g.rng.Intn(8)
+		}
+		switch {
+		case k < 4:
+			w := int64(1 + g.rng.Intn(24))
+			if g.rng.Intn(6) == 0 {
+				w = int64(1 + g.rng.Intn(64))
+			}
+			nm := g.name()
+			if g.rng.Intn(30) == 0 {
+				// a repeated field name (data-driven names in real decoders): in a struct the decode must stop there
+				for _, prev := range out {
+					if prev.Name != "" {
+						nm = prev.Name
+						break
+					}
+				}
+			}
+			out = append(out, &gNode{Op: gen.Pick(g.rng, []string{"U", "U", "S"}), Name: nm, N: w})
+			pos += w
+		case k < 6:
+			w := int64(g.rng.Intn(40))
+			out = append(out, &gNode{Op: "Raw", Name: g.name(), N: w})
+			pos += w
+		case k == 6:
+			out = append(out, &gNode{Op: "ValueUint", Name: g.name()})
+		case k == 7:
+			d := int64(g.rng.Intn(17)) - 4
+			out = append(out, &gNode{Op: "SeekRel", Pos: d})
+			pos += d
+		case k < 10:
+			out = append(out, &gNode{Op: gen.Pick(g.rng, []string{"Struct", "Struct", "Array"}), Name: g.name(), Body: g.body(depth-1, avail, pos)})
+		case k == 10:
+			t := int64(g.rng.Intn(int(max(avail, 1)) + 8))
+			out = append(out, &gNode{Op: "SeekAbs", Pos: t})
+			pos = t
+		case k == 11:
+			t := int64(g.rng.Intn(int(max(avail, 1)) + 1))
+			out = append(out, &gNode{Op: "SeekAbsFn", Pos: t, Body: g.body(depth-1, avail, t)})
+		case k < 14:
+			w := int64(g.rng.Intn(72))
+			out = append(out, &gNode{Op: gen.Pick(g.rng, []string{"Framed", "Limited"}), N: w, Body: g.body(depth-1, avail, pos)})
+			pos += w
+		case k == 14:
+			t := int64(g.rng.Intn(int(max(avail, 1)) + 1))
+			out = append(out, &gNode{Op: "Range", Pos: t, N: int64(g.rng.Intn(64)), Body: g.body(depth-1, avail, t)})
+		case k == 15:
+			// (a zero Range means "whole buffer" in decode.Options: windows are >= 1 bit)
+			w := int64(1 + g.rng.Intn(80))
+			out = append(out, &gNode{Op: "FormatLen", Name: g.name(), N: w, Arr: g.rng.Intn(3) == 0, Body: g.body(depth-1, w, 0)})
+			pos += w
+		case k == 16:
+			t := int64(g.rng.Intn(int(max(avail, 1)) + 1))
+			w := int64(1 + g.rng.Intn(64))
+			out = append(out, &gNode{Op: "FormatRange", Name: g.name(), Pos: t, N: w, Arr: g.rng.Intn(3) == 0, Body: g.body(depth-1, w, 0)})
+		case k == 17:
+			nb := int64(g.rng.Intn(9))
+			op := "FormatBitBuf"
+			if g.rng.Intn(3) == 0 {
+				op = "RootBitBuf"
+			}
+			nd := &gNode{Op: op, Name: g.name(), N: nb, Xor: byte(g.rng.Intn(256)), Arr: g.rng.Intn(3) == 0}
+			if op == "FormatBitBuf" {
+				nd.Body = g.body(depth-1, nb*8, 0)
+			}
+			out = append(out, nd)
+		case k == 18:
+			if g.rng.Intn(4) == 0 {
+				out = append(out, &gNode{Op: "Fatal"})
+			}
+		default:
+			w := int64(8 * (1 + g.rng.Intn(4)))
+			out = append(out, &gNode{Op: "U", Name: g.name(), N: w})
+			pos += w
+		}
+	}
+	return out
+}
+
+// ---- comparison ----
+
+func gCompare(path string, e *eVal, v *decode.Value, issues *[]string, base int64) {
+	add := func(format string, a ...any) {
+		if len(*issues) < 6 {
+			*issues = append(*issues, path+": "+fmt.Sprintf(format, a...))
+		}
+	}
+	if v.Name != e.Name {
+		add("name %q, expected %q", v.Name, e.Name)
+		return
+	}
+	if v.IsRoot != e.IsRoot {
+		add("IsRoot %v, expected %v", v.IsRoot, e.IsRoot)
+	}
+	if v.Range.Start != e.Start || v.Range.Len != e.Len {
+		if e.IsRoot && base != 0 && v.Range.Len == e.Len && v.Range.Start == e.Start-base {
+			// the one listed defect: a nested root created inside a *Len/*Range sub-decode keeps a start that is
+			// relative to the sub-decode window (decode() rebases with WalkRootPreOrder, which skips nested roots)
+			add("[nested-root-start-relative-to-subdecode-window] range %d:%d, expected %d:%d", v.Range.Start, v.Range.Len, e.Start, e.Len)
+		} else {
+			add("range %d:%d, expected %d:%d (%s)", v.Range.Start, v.Range.Len, e.Start, e.Len, e.Kind)
+		}
+	}
+	switch e.Kind {
+	case "struct", "array":
+		c, ok := v.V.(*decode.Compound)
+		if !ok || c.IsArray != (e.Kind == "array") {
+			add("kind %T, expected %s", v.V, e.Kind)
+			return
+		}
+		var real []*decode.Value
+		for _, ch := range c.Children {
+			if isGap(ch) {
+				continue // C04's subject
+			}
+			real = append(real, ch)
+		}
+		if len(real) != len(e.Children) {
+			var rn, en []string
+			for _, x := range real {
+				rn = append(rn, x.Name)
+			}
+			for _, x := range e.Children {
+				en = append(en, x.Name)
+			}
+			add("children %v, expected %v", rn, en)
+			return
+		}
+		cbase := base
+		if e.IsRoot {
+			cbase = 0 // children live in the root's own buffer
+		} else if e.GapScope {
+			cbase = e.Start // a *Len/*Range sub-decode window starting at e.Start of the enclosing buffer
+		}
+		// the listed defect also shows as ORDER: inside a *Len/*Range sub-decode window a nested root sorts by its
+		// un-rebased start. If only the order differs and a nested root is among the children, compare by name and
+		// tag the issue with the listed signature.
+		if cbase != 0 && e.Kind == "struct" {
+			hasRoot, orderDiffers := false, false
+			byName := map[string]*decode.Value{}
+			for i, ec := range e.Children {
+				if ec.IsRoot {
+					hasRoot = true
+				}
+				if real[i].Name != ec.Name {
+					orderDiffers = true
+				}
+				byName[real[i].Name] = real[i]
+			}
+			if hasRoot && orderDiffers && len(byName) == len(e.Children) {
+				ok := true
+				for _, ec := range e.Children {
+					if byName[ec.Name] == nil {
+						ok = false
+					}
+				}
+				if ok {
+					add("[nested-root-start-relative-to-subdecode-window] field order differs")
+					for _, ec := range e.Children {
+						gCompare(path+"."+ec.Name, ec, byName[ec.Name], issues, cbase)
+					}
+					return
+				}
+			}
+		}
+		for i, ec := range e.Children {
+			gCompare(path+"."+ec.Name, ec, real[i], issues, cbase)
+		}
+		// indices (with gaps counted, as the real tree has them)
+		for i, ch := range c.Children {
+			want := -1
+			if c.IsArray {
+				want = i
+			}
+			if ch.Index != want {
+				add("child %q has Index %d, expected %d", ch.Name, ch.Index, want)
+				break
+			}
+		}
+	case "uint":
+		if s, ok := v.V.(*scalar.Uint); !ok || s.Actual != e.Uval {
+			add("value %v, expected uint %d", v.V, e.Uval)
+		}
+	case "sint":
+		if s, ok := v.V.(*scalar.Sint); !ok || s.Actual != e.Sval {
+			add("value %v, expected sint %d", v.V, e.Sval)
+		}
+	case "raw":
+		if _, ok := v.V.(*scalar.BitBuf); !ok {
+			add("value %T, expected raw bits", v.V)
+		}
+	case "synthetic":
+		if !isSynthetic(v) {
+			add("expected a synthetic value")
+		}
+	}
+}
+
+func c03Gendec(run *ev.Run) {
+	n := run.Pick(4000, 300000)
+	depth := run.Pick(3, 5)
+	for id := 0; id < n; id++ {
+		rng := gen.New(run.Seed).Fork(0xC03D0000 + uint64(id))
+		nbytes := rng.Intn(24)
+		data := rng.Bytes(nbytes)
+		L := int64(nbytes) * 8
+		gg := &gGen{rng: rng, max: run.Pick(30, 60)}
+		prog := gg.body(depth, L, 0)
+		rootArr := rng.Intn(4) == 0
+		force := rng.Intn(3) == 0 // forced decoding only changes d.Errorf; the combinators fail through IO errors / Fatalf
+		if force {
+			run.Count("gendec:programs-forced", 1)
+		}
+		// reference
+		kind := "struct"
+		if rootArr {
+			kind = "array"
+		}
+		exp := &eVal{Name: "", Kind: kind, IsRoot: true, GapScope: true, Win: L}
+		ref := &gRef{buf: bstrFromBytes(data, -1), limit: L, cur: exp, ops: map[string]int{}}
+		okRef := ref.try(prog)
+		gFinish(exp)
+		// real
+		real := &gReal{}
+		f := &decode.Format{Name: "groot", RootArray: rootArr, DecodeFn: func(d *decode.D) any { real.run(d, prog); return nil }}
+		grp := &decode.Group{Name: "groot", Formats: []*decode.Format{f}}
+		var v *decode.Value
+		var derr error
+		pi := guardStack(func() {
+			v, _, derr = decode.Decode(context.Background(), bitio.NewBitReader(append([]byte(nil), data...), -1), grp, decode.Options{IsRoot: true, FillGaps: true, Force: force})
+		})
+		run.Eval(1)
+		run.Count("gendec:programs", 1)
+		for op, c := range ref.ops {
+			run.Count("gendec:op:"+op, int64(c))
+		}
+		progStr := gBody(prog)
+		replay := map[string]any{"program": progStr, "data_hex": fmt.Sprintf("%x", data), "root_array": rootArr}
+		if pi != nil {
+			run.Violation("gendec:panic:"+panicSig(pi), fmt.Sprintf("program {%s} on %x panicked: %v\n%s", progStr, data, pi.Value, trunc(pi.Stack, 1500)), replay)
+			continue
+		}
+		if v == nil {
+			run.Violation("gendec:no-tree", fmt.Sprintf("program {%s} on %x returned no tree (err %v)", progStr, data, derr), replay)
+			continue
+		}
+		if okRef != (derr == nil) {
+			run.Violation("gendec:failure-disagreement", fmt.Sprintf("program {%s} on %x: reference says fails=%v, decode error: %v", progStr, data, !okRef, derr), replay)
+			continue
+		}
+		if !okRef {
+			run.Count("gendec:programs-failing-midway (partial trees)", 1)
+		}
+		var issues []string
+		gCompare("", exp, v, &issues, 0)
+		var st treeStats
+		for _, is := range checkTree(v, &st) {
+			issues = append(issues, "walker "+is.Sig+": "+is.Desc)
+		}
+		if len(issues) > 0 {
+			// signature: the combinators involved in the first differing path are not known; use the op set
+			var ops []string
+			for op := range ref.ops {
+				if op != "U" && op != "S" && op != "Raw" {
+					ops = append(ops, op)
+				}
+			}
+			sort.Strings(ops)
+			what := "tree-differs"
+			allListed := true
+			for _, is := range issues {
+				if !strings.Contains(is, "[nested-root-start-relative-to-subdecode-window]") {
+					allListed = false
+				}
+			}
+			if allListed {
+				run.Violation("gendec:nested-root-start-relative-to-subdecode-window", fmt.Sprintf("program {%s} on %x (root array=%v):\n  %s", progStr, data, rootArr, strings.Join(issues, "\n  ")), replay)
+				continue
+			}
+			if strings.HasPrefix(issues[0], "walker") || strings.Contains(strings.Join(issues, " "), "walker") && len(issues) == 1 {
+				what = "walker"
+			}
+			partial := ""
+			if !okRef {
+				partial = ":partial"
+			}
+			run.Violation("gendec:"+what+partial+":"+strings.Join(ops, "+"), fmt.Sprintf("program {%s} on %x (root array=%v):\n  %s", progStr, data, rootArr, strings.Join(issues, "\n  ")), replay)
+			continue
+		}
+		run.Count("gendec:values-compared", int64(st.Values))
+		if st.Compounds > 1 {
+			run.Distinct("gendec:" + progStr)
+		}
+		if id < 3 {
+			run.Sample(map[string]any{"program": progStr, "data_hex": fmt.Sprintf("%x", data), "fails": !okRef})
+		}
+	}
+}
